@@ -130,7 +130,7 @@ def run(prog, rep):
             if isinstance(t, Str):
                 n_str += 1
     rep.ok("nul-cut", f"{n_str} decoder string sites all read through BTSString.bread")
-    rep.floor("nul-cut/string-sites", n_str, 10)
+    rep.floor("nul-cut/string-sites", n_str, 9)
     # BTSString.write zero-fills after the terminator (C13's str-terminated) - needed for canonical re-encoding
     from ..strings import WriteAnalysis
     wa = WriteAnalysis(prog)
